@@ -6,7 +6,10 @@
 package vsched
 
 import (
+	"cmp"
 	"fmt"
+	"iter"
+	"slices"
 	"os"
 	"reflect"
 	"runtime"
@@ -349,6 +352,28 @@ func (x *X) Choices() []int {
 		c[i] = r.Choice
 	}
 	return c
+}
+
+// SortedMap iterates a map in key order: Go randomises map iteration per
+// range statement, which the scheduler cannot own; the rewriter wraps the
+// ranges named by -sortrange so that executions are reproducible.
+func SortedMap[M ~map[K]V, K cmp.Ordered, V any](m M) iter.Seq2[K, V] {
+	return func(yield func(K, V) bool) {
+		keys := make([]K, 0, len(m))
+		for k := range m {
+			keys = append(keys, k)
+		}
+		slices.Sort(keys)
+		for _, k := range keys {
+			v, ok := m[k]
+			if !ok {
+				continue
+			}
+			if !yield(k, v) {
+				return
+			}
+		}
+	}
 }
 
 // ---- channels (native channels kept; waiting made visible) ----
